@@ -1170,6 +1170,11 @@ class Interpreter : public EvaluatorInterface {
 
     // 関数コンテキスト
     std::string current_function_name; // 現在実行中の関数名
+    // static ローカル変数の名前空間。ジェネリック関数のインスタンス
+    // （"counter<int>" など）を実行中のみ設定され、それ以外は空
+    // （current_function_name が名前空間になる）。current_function_name は
+    // 関数定義の検索にも使われるため、型引数を付けずにそのまま残す
+    std::string current_static_namespace;
 
   private:
     void print_value(const ASTNode *expr);
@@ -1197,6 +1202,12 @@ class Interpreter : public EvaluatorInterface {
     // 関数コンテキストへのアクセス
     const std::string &get_current_function_name() const {
         return current_function_name;
+    }
+
+    // static ローカル変数のキーの接頭辞: インスタンスごとに別の static を持つ
+    const std::string &get_static_namespace() const {
+        return current_static_namespace.empty() ? current_function_name
+                                                : current_static_namespace;
     }
 
     // v0.13.1: デストラクタ実行中かチェック
